@@ -554,7 +554,7 @@ func (fr *Frame) typeInv(st *State, t *Term, ty types.Type) {
 // havocClasses replaces the named heap classes by fresh arrays; allocation counter only grows.
 func (fr *Frame) havocClasses(st *State, classes map[string]bool, why string) {
 	fc := fr.fc
-	var ks []string
+	var ks, havocked []string
 	for k := range classes {
 		ks = append(ks, k)
 	}
@@ -565,7 +565,16 @@ func (fr *Frame) havocClasses(st *State, classes map[string]bool, why string) {
 			continue // class never touched by verified code: nothing to forget
 		}
 		st.heap[k] = fc.fresh("hv."+why+"."+k, s)
+		havocked = append(havocked, k)
+		if k == "big" {
+			fc.bigHavocs = append(fc.bigHavocs, st.heap[k])
+		}
 	}
+	defer func() {
+		for _, k := range havocked {
+			fc.heapClosure(k, st.heap[k], st.alloc)
+		}
+	}()
 	if fc.initMode && st.alloc.IsLit() {
 		// package initialisers are evaluated with literal references (only the identity of
 		// objects matters): an opaque call may allocate, so leave a window of references
@@ -608,7 +617,11 @@ func (fr *Frame) safe(st *State, kind string, cond *Term, in ssa.Instruction, de
 		fc.oblige(name, "safe", ids, st.pc, cond, nil, descr+fr.posOf(in))
 	}
 	// after the check the execution continues only if it passed
+	n0 := len(fc.assumps)
 	fc.assume(st.pc, cond)
+	if len(fc.assumps) > n0 {
+		fc.safeAssump[n0] = true
+	}
 }
 
 func (fr *Frame) posOf(in ssa.Instruction) string {
